@@ -105,6 +105,7 @@ def run_replays(binary, pid, files=None, dir_=None, timeout=600):
     cfg = CHECKS.get(pid, {})
     if cfg.get("ulimit_v_kb"):
         env.setdefault("GOMEMLIMIT", "400MiB")
+        env.setdefault("GOGC", "50")
     env["VERIF_PROP"] = pid
     env["VERIF_OUT"] = ""
     if dir_:
@@ -315,6 +316,7 @@ def run_check(pid, tier):
     timeout = cfg.get("timeout", {}).get(tier, 900 if tier == "quick" else 7200)
     procs = [run_shard(binary, pid, cfg, tier, seed, s, nshards, outdir, replays, timeout) for s in range(nshards)]
     inconclusive = False
+    retry = []
     for s, (p, lf) in enumerate(procs):
         try:
             rc = p.wait(timeout=timeout + 120)
@@ -323,6 +325,8 @@ def run_check(pid, tier):
             rc = -9
         lf.close()
         txt = open(lf.name, errors="replace").read()
+        if os.environ.get("VERIF_DEBUG_FAKE_DEATH") == str(s) and rc == 0:
+            rc, txt = 2, "simulated worker death (driver self-test)"
         if rc != 0:
             vio = re.findall(r"VIOLATION-CASE (\S+) replay=(\S+?):", txt)
             for _, path in vio:
@@ -348,9 +352,52 @@ def run_check(pid, tier):
                         attributed = True
                         log("worker death reproduced from journaled case %s: %s" % (dst, r[0][2][-800:]))
                 if not attributed:
-                    inconclusive = True
-                    log("shard %d exited %s without a reproducible failure (inconclusive); tail of log:" % (s, rc))
-                    log(txt[-3000:])
+                    # nothing in the case reproduces the death: resource exhaustion of a loaded machine is the
+                    # usual reason (the shards of a check run concurrently). Run this shard once more, alone,
+                    # after the others have finished; only if it dies again is the run inconclusive.
+                    retry.append((s, rc, txt[-3000:]))
+    for s, rc0, tail in retry:
+        for f in glob.glob(os.path.join(outdir, "part-*-s%d.*" % s)) + glob.glob(os.path.join(outdir, "journal-*-s%d.json" % s)):
+            os.remove(f)
+        log("shard %d exited %s without a reproducible failure; running it again on its own" % (s, rc0))
+        p, lf = run_shard(binary, pid, cfg, tier, seed, s, nshards, outdir, replays, timeout)
+        try:
+            rc = p.wait(timeout=timeout + 120)
+        except subprocess.TimeoutExpired:
+            p.kill()
+            rc = -9
+        lf.close()
+        txt = open(lf.name, errors="replace").read()
+        if rc == 0:
+            notes.append("shard %d died once without a reproducible failure (exit %s) and passed when run again on its own" % (s, rc0))
+            continue
+        vio = re.findall(r"VIOLATION-CASE (\S+) replay=(\S+?):", txt)
+        for _, path in vio:
+            if path not in violations and os.path.exists(path):
+                violations.append(path)
+        if "WARNING: DATA RACE" in txt or "race detected during execution" in txt:
+            os.makedirs(replays, exist_ok=True)
+            rp = os.path.join(replays, "race-report-s%d.txt" % s)
+            shutil.copy(lf.name, rp)
+            if rp not in violations:
+                violations.append(rp)
+        if not vio and "DATA RACE" not in txt:
+            attributed = False
+            for j in glob.glob(os.path.join(outdir, "journal-*-s%d.json" % s)):
+                r = run_replays(binary, pid, files=[j], timeout=300)
+                if r and r[0][1] in ("FAIL", "DIED"):
+                    os.makedirs(replays, exist_ok=True)
+                    dst = os.path.join(replays, os.path.basename(j))
+                    shutil.copy(j, dst)
+                    violations.append(dst)
+                    attributed = True
+                    log("worker death reproduced from journaled case %s: %s" % (dst, r[0][2][-800:]))
+            if not attributed:
+                inconclusive = True
+                log("shard %d exited %s again without a reproducible failure (inconclusive); tail of the first log:" % (s, rc))
+                log(tail)
+                log("tail of the second log:")
+                log(txt[-3000:])
     parts = []
     for f in sorted(glob.glob(os.path.join(outdir, "part-*.json"))):
         try:
